@@ -1620,6 +1620,33 @@ static void run_c12(void) {
         }
         vh_flag(ext ? "triples_external" : "triples_tagged", complete);
     }
+    /* byte-pattern product: every stored value whose 8 bytes are drawn from {00, 01, 7f, 80, ff} (5^8 = 390625 values:
+     * every pattern of carries and borrows rippling through any run of bytes) x small amounts of both signs */
+    if (vh_section_begin("add/byte-patterns")) {
+        static const uint8_t SYM[5] = {0x00, 0x01, 0x7f, 0x80, 0xff};
+        static const int64_t AM[12] = {1, 2, 0x10, 0x20, 0x7f, 0x80, 0xff, 0x100, -1, -0x20, -0xff, -0x100};
+        for (uint32_t k = 0; k < 390625; k++) {
+            if (!vh_case()) {
+                continue;
+            }
+            uint64_t sv = 0;
+            uint32_t t = k;
+            for (int b = 0; b < 8; b++) {
+                sv |= (uint64_t)SYM[t % 5] << (8 * b);
+                t /= 5;
+            }
+            for (int ext = 0; ext < 2; ext++) {
+                int w = ext ? ref_bytes_of(sv) : ref_tagged(sv, (uint8_t[16]){0});
+                for (int ai = 0; ai < 12; ai++) {
+                    for (int grow = 0; grow < 2; grow++) {
+                        c12_one(ext, sv, w, AM[ai], grow);
+                    }
+                }
+            }
+            vh_count("cases", 48);
+        }
+        vh_class("add/byte-patterns", "5^8 stored values x 12 amounts x {grow, no-grow} x {tagged, external}");
+    }
     if (vh_thorough && vh_section_begin("add/dense")) {
         /* dense small scope: every stored value below 70000 (all 1-3 byte tagged classes and their boundaries) x every
          * amount in [-2300, 2300] */
